@@ -2,6 +2,7 @@ package main
 
 import (
 	"fmt"
+	"go/token"
 	"go/types"
 	"strings"
 
@@ -352,4 +353,97 @@ func ruleBusyOnlyWhileJoining(c *Ctx, r *Rule) {
 		}
 		r.Ob(n >= 1, name+"|has-busy-returns", do.Pos(), "the action can hold or collapse")
 	}
+}
+
+// ruleContinuationDecidedByCheck: whether an event continues an open run (the action answers
+// Collapse) is decided by the configured continue check applied to the event's own value — a regexp
+// match or the template's check function, possibly negated. A constant verdict on any path ("the
+// start check has just failed, so it must be a continuation") classifies events the checks never saw.
+func ruleContinuationDecidedByCheck(c *Ctx, r *Rule) {
+	ro := c.roles()
+	if ro.ActionPlugin == nil {
+		r.Unresolved("ActionPlugin")
+		return
+	}
+	var collapse int64 = -1
+	for v, n := range c.actionResultConsts() {
+		if n == "ActionCollapse" {
+			collapse = v
+		}
+	}
+	if collapse < 0 {
+		r.Unresolved("pipeline.ActionCollapse")
+		return
+	}
+	n := 0
+	for _, t := range c.Implementers(ro.ActionPlugin) {
+		do := c.MethodOf(t, "Do")
+		if do == nil || do.Blocks == nil || c.pkgOf(do) != "plugin/action/join" {
+			continue
+		}
+		for _, ret := range returnsOf(do) {
+			k, isK := constInt(retResults(ret)[0])
+			if !isK || k != collapse {
+				continue
+			}
+			// the deciding helper: a module function of the package whose true result guards this return
+			for _, l := range c.unitGuards(ret) {
+				call, ok := l.v.(*ssa.Call)
+				if !ok || !l.pol {
+					continue
+				}
+				g := call.Call.StaticCallee()
+				if g == nil || g.Blocks == nil || c.pkgOf(g) != "plugin/action/join" {
+					continue
+				}
+				n++
+				r.Inst(1)
+				// the value parameter: the string argument
+				var valPar *ssa.Parameter
+				for _, p := range g.Params {
+					if b, isB := p.Type().Underlying().(*types.Basic); isB && b.Info()&types.IsString != 0 {
+						valPar = p
+					}
+				}
+				bad := ""
+				seen := map[ssa.Value]bool{}
+				var walk func(v ssa.Value, d int)
+				walk = func(v ssa.Value, d int) {
+					if bad != "" || seen[v] || d > 8 {
+						return
+					}
+					seen[v] = true
+					switch x := v.(type) {
+					case *ssa.Phi:
+						for _, e := range x.Edges {
+							walk(e, d+1)
+						}
+						return
+					case *ssa.UnOp:
+						if x.Op == token.NOT {
+							walk(x.X, d+1)
+							return
+						}
+					case *ssa.Call:
+						for _, a := range x.Call.Args {
+							if valPar != nil && stripConv(a) == ssa.Value(valPar) {
+								return
+							}
+						}
+						bad = "verdict " + c.path(x) + " does not look at the event's value"
+						return
+					case *ssa.Const:
+						bad = "a constant verdict (" + x.String() + ") on some path"
+						return
+					}
+					bad = "verdict from " + c.path(v)
+				}
+				for _, gr := range returnsOf(g) {
+					walk(retResults(gr)[0], 0)
+				}
+				r.Ob(bad == "", c.fnName(g)+"|continuation-by-check", g.Pos(), "an event joins the open run only by the verdict of the continue check on its own value"+ifs(bad != "", ": "+bad))
+			}
+		}
+	}
+	r.Ob(n >= 1, "join|continuation-helper", token.NoPos, fmt.Sprintf("%d continuation decisions examined", n))
 }
